@@ -234,14 +234,21 @@ def _self_check(col, rule="C03.R6"):
 
 
 def check(col: Collector):
-    _inverse(col)
-    _redefinition(col)
-    _index_lists(col)
-    _rebuild(col)
-    _refcount(col)
-    _self_check(col)
+    with col.rule():
+        _inverse(col)
+    with col.rule():
+        _redefinition(col)
+    with col.rule():
+        _index_lists(col)
+    with col.rule():
+        _rebuild(col)
+    with col.rule():
+        _refcount(col)
+    with col.rule():
+        _self_check(col)
     # "reacts to every later assignment exactly like a fresh manager": which tasks an assignment triggers is read off
     # deptasks alone, never off the presence of keys that depends on the history (defaultdict entries left by register,
     # swept by cleanup)
     from .common import shared
-    shared(col, "C03.R7", [c01._trigger_closure], why="the trigger closure must not consult history-dependent state")
+    with col.rule():
+        shared(col, "C03.R7", [c01._trigger_closure], why="the trigger closure must not consult history-dependent state")
